@@ -439,7 +439,7 @@ def endless_case(case):
     tree = os.path.dirname(os.path.dirname(os.path.abspath(Core.__file__)))
     try:
         r = subprocess.run([sys.executable, '-c', ENDLESS_CHILD, tree, case['value'], case['how']], capture_output=True,
-                           text=True, env=dict(os.environ, PYTHONHASHSEED='0'), timeout=case.get('deadline', 30))
+                           text=True, env=dict(os.environ, PYTHONHASHSEED='0'), timeout=case.get('deadline', 15))
     except subprocess.TimeoutExpired:
         raise Violation(f'build() of a declaration whose parameter "species" is an agent {case["value"]} (declared through '
                         f'{case["how"]}) does not return within {case.get("deadline", 30)} s', expected='2 combinations',
